@@ -24,6 +24,8 @@ RANGE_SENSITIVE = [
     (r'^core::array::<impl \[T; N\]>::(split_at|split_at_mut)', 'slice'),
     (r'^std::vec::Vec::<.*>::(remove|swap_remove|insert|split_off|drain|truncate)$', 'vec'),
     (r'^core::slice::<impl \[T\]>::(get_unchecked|get_unchecked_mut)$', 'unchecked'),
+    (r'^std::vec::Vec::<.*>::(with_capacity|reserve|reserve_exact)$', 'capacity'),      # panics with `capacity overflow` for huge counts
+    (r'^std::collections::(HashMap|HashSet|VecDeque)::<.*>::(with_capacity|reserve)$', 'capacity'),
 ]
 RANGE_RE = [(re.compile(a), b) for a, b in RANGE_SENSITIVE]
 PANIC_RE = re.compile(r'^(core|std)::panicking::|^core::panicking|^std::rt::(begin_panic|panic)|assert_failed|::unwrap_failed|^core::option::(unwrap_failed|expect_failed)|^core::result::unwrap_failed')
@@ -165,7 +167,7 @@ class FnTaint:
         if not cal.get('local'):
             return False
         out = self.T.facts.fns.get(cal.get('path'))
-        return out is not None and (out.output == 'bool' or (out.output or '').startswith('std::result::Result<'))
+        return out is not None and (out.output == 'bool' or (out.output or '').startswith(('std::result::Result<', 'std::option::Option<')))
 
     def apply_guard(self, b, t, c, state, outs):
         body = self.body
@@ -203,6 +205,9 @@ class FnTaint:
         elif c[0] == 'discr' and c[1][0] == 'call':
             call = c[1]
             ok_vals = 0     # Result discriminant: 0 = Ok
+            g_ = self.T.facts.fns.get(call[1]) if isinstance(call[1], str) else None
+            if g_ is not None and (g_.output or '').startswith('std::option::Option<'):
+                ok_vals = 1     # Option discriminant: 1 = Some (a checked position: `pos(index) -> Option<usize>`)
         if call is None:
             return
         # unwrap `.is_ok()` style adaptors
@@ -319,7 +324,8 @@ class FnTaint:
         ret_ty = body.local_ty(0)
         params = {('param', self.pname(i)) for i in range(1, body.arg_count + 1)}
         is_res = ret_ty.startswith('std::result::Result<')
-        if not (is_res or ret_ty == 'bool'):
+        is_opt = ret_ty.startswith('std::option::Option<')
+        if not (is_res or is_opt or ret_ty == 'bool'):
             return set()
         bad = set()
         for b in range(body.n):
@@ -329,8 +335,8 @@ class FnTaint:
             for st in body.blocks[b]['stmts']:
                 if st['k'] == 'assign' and st['lhs']['l'] == 0 and not st['lhs']['p']:
                     rv = st['rv']
-                    if is_res:
-                        if rv['k'] == 'agg' and rv.get('variant') == 'Ok':
+                    if is_res or is_opt:
+                        if rv['k'] == 'agg' and rv.get('variant') == ('Ok' if is_res else 'Some'):
                             bad |= (state & params)
                         continue
                     c = body.canon_rv(rv, 0, False)
